@@ -420,7 +420,15 @@ class Gen:
                 # <extension> with attribute children only: no (not even an empty) sequence
                 content.group = None
                 self.features.add("extension-attributes-without-sequence")
-        return ComplexType(nm, content, base, self.doc(), fidx)
+        ct = ComplexType(nm, content, base, self.doc(), fidx)
+        if content.group is not None and content.group.kind == "sequence" and fidx not in self.tns_only and \
+                _random.Random("self-member:" + nm.xml).random() < self.cfg.get("p_self_member", 0.0):
+            # a tree node and its parent / children: an optional or repeated member of the type itself
+            mn = self.names.fresh(taken)
+            mx = _random.Random("self-member-max:" + nm.xml).choice([1, 1, "unbounded", 3])
+            content.group.items.append(LocalElement(mn, TypeRef(nm.xml, fidx, ct), 0, mx))
+            self.features.add("self-referential-member" + ("" if mx == 1 else "-repeated"))
+        return ct
 
     def make_gelement(self, fidx, taken_elems):
         r = self.r
